@@ -58,6 +58,12 @@ Theorem C05_gen_default_partitioner_assigns :
 Proof. reflexivity. Qed.
 Theorem C05_gen_repartition_assigns : repartition_assigns = ["= int(result[0].Int())"%string].
 Proof. reflexivity. Qed.
+(* Task.Type carries the key prefix handed to the partitioner: in compile, the re-shuffle
+   tasks inserted for a reused *Result are typed by the slice being shuffled (the
+   consumer's view, e.g. Prefixed(result, j)), the ordinary ones by the head of their
+   pipeline; [keyed_pf keyof] takes keyof from that slice *)
+Theorem C05_gen_compile_task_types : compile_task_types = ["slice"%string; "slices[0]"%string].
+Proof. reflexivity. Qed.
 (* bufferOutput consults the partitioner only when there are at least two partitions *)
 Theorem C05_gen_buffer_output_conds : buffer_output_partition_conds = ["task.NumPartition > 1"%string].
 Proof. reflexivity. Qed.
